@@ -36,6 +36,9 @@ def run(ctx):
     U.rule_punycode(ctx, "R6p")
     U.rule_qsl(ctx, "R4q")
     Q.rule_qsl_mappers(ctx, "R4m")
+    # the mode round trips (quoted <-> unquoted) need each component to come from itself in BOTH modes
+    from .c01 import component_flow
+    component_flow(ctx, "R4f")
 
     # R5 order constraints ----------------------------------------------------------
     ctx.rule("R5", "order: the empty-path decision reads the dot-segment-resolved path; when '.' or '/' escapes are decodable in a path, unescaping precedes dot-segment resolution; the path is dot-resolved on every non-root path")
